@@ -1,11 +1,11 @@
 """C13 plug-in: comparison rule and the property's oracle for the power method.
 
 Request `power <half> <h> <w> <bits…> <es bits>`, observation `ok <λ> <n> 1 <v…>` | `err nonsquare` |
-`err noconv` | `panic` | `hang`.  The model additionally reports `passes <p>` (the number of loop passes it
+`err noconv` | `err other <Debug text>` | `panic` | `hang`.  The model additionally reports `passes <p>` (the number of loop passes it
 made); the Rust API does not expose it, so the comparison drops it (λ and v bit for bit pin it anyway).
 
 Oracle, written from the statement (the harness already decided the outcome-kind clauses: non-square/empty ⇒
-NonSquareMatrix, never a panic or a hang, `acc` cases must succeed, eigenvector n×1):
+rejected (any `Err`), never a panic or a hang, `acc` cases must succeed, eigenvector n×1):
 
   accuracy half (`acc`: symmetric Q D Qᵀ, gap ≤ 1/2, either sign of λ₁, tolerance 1e-4 … 1e-12)
     * the largest component of v is exactly 1 and no component exceeds 1          (bit patterns)
@@ -74,8 +74,149 @@ def _strip(model):
 
 
 def compare(req, impl, model):
+    """What the statement fixes is compared exactly: accepted vs refused, the shape of the eigenvector, the eigenvalue
+    (bit-equal or 1e-9 relative), the eigenvector (`default_compare`: every component to 1e-9 relative; or
+    `same_direction`: the same largest component and the same direction to 1e-9 of its length); `panic` and `hang` are
+    answers of their own and never agree with anything else.
+
+    Relaxed, each only as far as the statement goes:
+      * two REFUSALS agree whatever their kind: the statement says "rejected" / "returns or fails in bounded time" and
+        names no error variant (which `Err` an empty or non-square input gets is incidental; the observation keeps it
+        for information);
+      * a request whose answer is not determined to within rounding carries no information beyond "the call returned":
+        non-finite entries, no strictly dominant real eigenvalue (rotation blocks, +-lambda pairs, nilpotent, zero: the
+        Rayleigh quotients are rounding noise and the stopping rule fires by luck or never), a start vector without a
+        component along the dominant eigenvector, a tolerance at rounding level (below `noise_floor`).  All of them are
+        outside the statement's accuracy clause; there two answers agree when both calls returned (`ok` or `err`).
+        Decided by the plug-in's own references (`fragile`), only consulted when the plain comparison fails;
+      * the one discontinuity of the method: the test `ea < es`.  When `ea` of some pass equals the tolerance to within
+        its own rounding error (`noise_floor`: 100 n u (|A|_F/|l|)^2), a re-associated sum moves the stop by one pass and
+        both answers satisfy the stopping rule.  Accepted iff the binary64 replica of the documented method reproduces
+        the implementation's pair (1e-9) one pass before or after the model's stop AND `ea` of the pass in question is
+        that close to the tolerance.  Nothing else is tolerated: a different stopping rule, cap or normalisation shows."""
     from __main__ import default_compare
-    return default_compare(req, impl, _strip(model)[0])
+    model, passes = _strip(model)
+    ti, tm = impl.split(), model.split()
+    if ti[:1] == ["err"] and tm[:1] == ["err"]:
+        return None
+    why = default_compare(req, impl, model)
+    if why is None:
+        return None
+    if not (ti[:1] in (["ok"], ["err"]) and tm[:1] in (["ok"], ["err"])):
+        return why                      # panic / hang / malformed: never relaxed
+    if ti[0] == "ok" and tm[0] == "ok" and same_direction(ti, tm):
+        return None
+    try:
+        half, h, w, abits, esb = parse_req(req)
+        if h != w or h == 0:
+            return why                  # accepted vs refused on a non-square input: exact
+        fr = fragile(abits, h, f_of_bits(esb))
+        if fr:
+            return None
+        if fr is False and ti[0] == "ok" and tm[0] == "ok" and passes is not None and one_pass_off(abits, h, f_of_bits(esb), impl, passes):
+            return None
+    except Exception:                   # a reference that cannot cope leaves the plain verdict in place
+        return why
+    return why
+
+
+def same_direction(ti, tm):
+    """two `ok` answers: the eigenvalues agree to 1e-9 relative, the largest components are the same number (exactly 1
+    in both unless the scaling clause is broken) and the vectors agree to 1e-9 of their LENGTH, as directions.
+    `default_compare` asks for 1e-9 of every single component: a component that is zero in exact arithmetic is
+    rounding noise of either sign, and when the largest component is a small positive one beside large negative ones
+    (seen: |v| = 5e9) the final division by it amplifies its relative error into every other component -- the
+    statement measures v by its residual relative to |v|, not component by component."""
+    try:
+        li, lm = f_of_bits(int(ti[1][1:])), f_of_bits(int(tm[1][1:]))
+        if ti[2:4] != tm[2:4]:
+            return False
+        n = int(ti[2]) * int(ti[3])
+        if len(ti) != 4 + n or len(tm) != 4 + n or n == 0:
+            return False
+        vi = [f_of_bits(int(x[1:])) for x in ti[4:]]
+        vm = [f_of_bits(int(x[1:])) for x in tm[4:]]
+    except (ValueError, IndexError):
+        return False
+    if not all(math.isfinite(x) for x in vi + vm + [li, lm]):
+        return False
+    if abs(li - lm) > 1e-9 * max(abs(li), abs(lm)):
+        return False
+    if max(vi) != max(vm):
+        return False
+    k = max(range(n), key=lambda j: abs(vm[j]))
+    if vm[k] == 0.0 or vi[k] == 0.0:
+        return False
+    return all(abs(a / vi[k] - b / vm[k]) <= 1e-9 for a, b in zip(vi, vm))
+
+
+def fragile(abits, n, tol):
+    """True: the answer to this request is not determined to within rounding (see `compare`); False: it is;
+    None: undecided (the comparison then stays exact)."""
+    vals = [f_of_bits(b) for b in abits]
+    if not all(math.isfinite(x) for x in vals):
+        return True
+    if not (tol == tol) or tol <= 0.0:
+        return False                    # the stopping test never fires: deterministic
+    if all(vals[i * n + j] == vals[j * n + i] for i in range(n) for j in range(i)):
+        if max(abs(x) for x in vals) == 0.0:
+            return True
+        l1, ratio, cos = reference(abits, n)
+        if l1 == 0.0 or ratio >= 0.97 or cos < 1e-3:
+            return True
+        return tol < noise_floor(abits, n, l1)
+    if n > 12:
+        return None
+    ref = ns_reference(abits, n)
+    if ref is None:
+        return True                     # no real simple root of strictly largest modulus (or no usable reference)
+    l1, ratio, along, kappa = ref
+    if ratio >= 0.97 or along < 1e-3 or kappa > 1e6:
+        return True
+    return tol < noise_floor(abits, n, l1)
+
+
+def one_pass_off(abits, n, tol, impl, passes):
+    """did the implementation stop one pass before / after the model because `ea` met the tolerance to within rounding?"""
+    f, lam_i, vs_i, _ = parse_ok(impl, n)
+    if f:
+        return False
+    a = [[f_of_bits(abits[i * n + j]) for j in range(n)] for i in range(n)]
+
+    def mul(v):
+        return [sum(a[i][j] * v[j] for j in range(n)) for i in range(n)]
+
+    def norm(v):
+        m = max(v)
+        return m if m > 0.0 else min(v)
+    try:
+        ev = mul([1.0] * n)
+        lam = norm(ev)
+        ev = [x / lam for x in ev]
+        hist = []                       # per pass (1-based count): (ea, lambda, returned vector)
+        for p in range(passes + 1):
+            ev = mul(ev)
+            c = norm(ev)
+            nv = [x / c for x in ev]
+            av = mul(nv)
+            nxt = sum(x * y for x, y in zip(nv, av)) / sum(x * x for x in nv)
+            ea = abs((nxt - lam) / nxt)
+            lam, ev = nxt, nv
+            m = max(ev)
+            hist.append((ea, lam, [x / m for x in ev]))
+    except (ZeroDivisionError, OverflowError):
+        return False
+    slack = noise_floor(abits, n, lam)
+    # stopped one pass earlier: the model's `ea` of that pass was >= tol by a hair; one pass later: < tol by a hair
+    for q, flip in ((passes - 1, passes - 1), (passes + 1, passes)):
+        if q < 2 or q > len(hist):
+            continue
+        ea_flip = hist[flip - 1][0]
+        if abs(ea_flip - tol) <= slack and same_pair(lam_i, vs_i, (hist[q - 1][1], hist[q - 1][2])):
+            if q == passes + 1 and not hist[q - 1][0] < tol:
+                continue
+            return True
+    return False
 
 
 def parse_req(req):
